@@ -6,11 +6,12 @@
 package verifbubble
 
 import (
-	"strconv"
 	"fmt"
 	"os"
 	"runtime"
 	"runtime/debug"
+	"runtime/metrics"
+	"strconv"
 	"strings"
 	"sync"
 	"testing"
@@ -41,6 +42,31 @@ var (
 	gcEvery = 200
 )
 
+// heapLimit triggers a collection between two executions regardless of the
+// run count (executions over long chains allocate tens of megabytes each).
+const heapLimit = 768 << 20
+
+var heapSample = []metrics.Sample{{Name: "/memory/classes/heap/objects:bytes"}}
+
+func heapBytes() uint64 {
+	metrics.Read(heapSample)
+	if heapSample[0].Value.Kind() != metrics.KindUint64 {
+		return 0
+	}
+	return heapSample[0].Value.Uint64()
+}
+
+// MaybeGC may be called by a harness at a quiescent point (every goroutine of
+// the bubble but the caller durably blocked, so a collection cannot reorder
+// runnable goroutines of the component): it collects when the garbage of the
+// current execution alone has grown large. Executions over long chains that
+// run for hundreds of virtual seconds otherwise reach several gigabytes.
+func MaybeGC() {
+	if heapBytes() > 2*heapLimit {
+		runtime.GC()
+	}
+}
+
 // Watchdog is the real-time limit for one bubble.
 var Watchdog = 10 * time.Second
 
@@ -55,7 +81,7 @@ func Run(t *testing.T, body func()) (out Outcome) {
 	// not have. Collection happens between executions instead.
 	gcOnce.Do(func() { debug.SetGCPercent(-1) })
 	runs++
-	if runs%gcEvery == 0 {
+	if runs%gcEvery == 0 || heapBytes() > heapLimit {
 		runtime.GC()
 	}
 	verifdetrt.Reset()
